@@ -1196,4 +1196,67 @@ example : genDecode exTag [] = .err := tag_decode_err _ _ _ (by intro sel h; sim
 
 end Examples
 
+/-! ## 11. defaults of skipped fields are values of the field's type -/
+
+mutual
+/-- types whose Rust counterpart has a `Default` the model knows: everything except `NonZeroUsize`
+    (no `Default`), unions / transparent enums over nothing, and tag enums without variants -/
+def defaultable : Ty → Bool
+  | .nonZeroUsize => false
+  | .tagEnum n => 0 < n
+  | .tuple ts => defaultableAll ts
+  | .container ts => defaultableAll ts
+  | .union ts => (match ts with | t :: _ => defaultable t | [] => false)
+  | .transparentEnum ts => (match ts with | t :: _ => defaultable t | [] => false)
+  | .bitvectorDyn => false      -- `Bitfield<Dynamic>` has no `Default` either
+  | _ => true
+def defaultableAll : List Ty → Bool
+  | [] => true
+  | t :: ts => defaultable t && defaultableAll ts
+end
+
+mutual
+/-- the value a skipped field is initialised with is a well-typed value of the field's schema, so a decoded
+    struct is well typed in all its fields, not only the live ones -/
+theorem default_hasType : ∀ (t : Ty), defaultable t = true → hasType t t.default = true
+  | .uint k, _ => by simp [Ty.default, hasType]; exact Nat.pow_pos (by decide)
+  | .bool, _ => by simp [Ty.default, hasType]
+  | .nonZeroUsize, h => by simp [defaultable] at h
+  | .bytesN n, _ => by simp [Ty.default, hasType]
+  | .byteList, _ => by simp [Ty.default, hasType]
+  | .list c t, _ => by simp [Ty.default, hasType, hasTypeAll, sortedBy]
+  | .option t, _ => by simp [Ty.default, hasType]
+  | .legacyOption t, _ => by simp [Ty.default, hasType]
+  | .tuple ts, h => by
+      simp only [defaultable] at h
+      simp only [Ty.default, hasType]
+      exact defaults_hasTypes ts h
+  | .container ts, h => by
+      simp only [defaultable] at h
+      simp only [Ty.default, hasType]
+      exact defaults_hasTypes ts h
+  | .union [], h => by simp [defaultable] at h
+  | .union (t :: ts), h => by
+      simp only [defaultable] at h
+      simp only [Ty.default, hasType, hasTypeNth]
+      exact default_hasType t h
+  | .tagEnum n, h => by
+      simp only [defaultable, decide_eq_true_eq] at h
+      simp [Ty.default, hasType, h]
+  | .transparentEnum [], h => by simp [defaultable] at h
+  | .transparentEnum (t :: ts), h => by
+      simp only [defaultable] at h
+      simp only [Ty.default, hasType, hasTypeNth]
+      exact default_hasType t h
+  | .bitvector n, _ => by simp [Ty.default, hasType]
+  | .bitlist n, _ => by simp [Ty.default, hasType]
+  | .bitvectorDyn, h => by simp [defaultable] at h
+theorem defaults_hasTypes : ∀ (ts : List Ty), defaultableAll ts = true → hasTypes ts (defaults ts) = true
+  | [], _ => by simp [defaults, hasTypes]
+  | t :: ts, h => by
+      simp only [defaultableAll, Bool.and_eq_true] at h
+      simp only [defaults, hasTypes, Bool.and_eq_true]
+      exact ⟨default_hasType t h.1, defaults_hasTypes ts h.2⟩
+end
+
 end Ssz.C08
